@@ -58,8 +58,13 @@ class Exec:
         Assertion.set_all_margins_from_cvrs(audit, contests, cvrs)
         for cid in [c for c in contests if not any(cv.has_contest(c) for cv in cvrs)]:
             del contests[cid]
-        if not contests or not all(a.margin > 0 for con in contests.values() for a in con.assertions.values()):
-            out.skip("audit-not-started(nonpositive-margin-or-no-cards)")
+        # contests whose reported outcome the CVRs do not support cannot be audited by comparison at all: they are
+        # left out, the audit goes on with the others
+        for cid in [c for c, con in contests.items() if not all(a.margin > 0 for a in con.assertions.values())]:
+            del contests[cid]
+            out.skip("contest-left-out(nonpositive-margin)")
+        if not contests:
+            out.skip("audit-not-started(no-auditable-contest)")
             return
         for con in contests.values():
             for a in con.assertions.values():
